@@ -40,7 +40,11 @@ func (a *Adapter) Arm(k int) { a.Calls = 0; a.FailAt = k }
 
 func (a *Adapter) call(name string, args ...string) error {
 	a.Calls++
-	a.Log = append(a.Log, name+"("+strings.Join(args, ";")+")")
+	if len(args) == 0 {
+		a.Log = append(a.Log, name)
+	} else {
+		a.Log = append(a.Log, name+"("+strings.Join(args, ";")+")")
+	}
 	if a.FailAt != 0 && a.Calls == a.FailAt {
 		a.FailAt = 0
 		return ErrInjected
